@@ -36,6 +36,11 @@ def items(tier):
             for ints in ("neg", "pos"):
                 for side in ("low", "high"):
                     out.append({"kind": "mixed", "metric": metric, "sc": sc, "ec": ec, "ints": ints, "side": side})
+    # integer scores in BOTH classes (dtype int everywhere): the one-step sentinel must not be truncated back onto a score
+    for metric in METRICS:
+        for sc, ec in CFGS:
+            for side in ("low", "high"):
+                out.append({"kind": "mixed", "metric": metric, "sc": sc, "ec": ec, "ints": "both", "side": side})
     return out
 
 
@@ -73,7 +78,7 @@ def run_fbits_smt(h, metric, n, kmax, k0=0):
 def run_mixed(h, metric, sc, ec, ints, side):
     """one class holds integer scores (dtype int), the other floats; P=N=2, sorted."""
     mk = lambda pre, isint: (h.ints(pre, 2, -4, 4) if isint else h.reals(pre, 2))
-    pos, neg = mk("p", ints == "pos"), mk("n", ints == "neg")
+    pos, neg = mk("p", ints in ("pos", "both")), mk("n", ints in ("neg", "both"))
     for a in (pos, neg):
         h.assume(a[0] <= a[1])
     h.policy(gather="fork", sort="fork")
@@ -84,7 +89,7 @@ def run_mixed(h, metric, sc, ec, ints, side):
     for method in ("linear", "lower", "higher"):
         t = getattr(S, f"threshold_at_{metric}")(r, method=method)
         cm = h.cells(S.cm(t).matrix)
-        own = {"topr": cm[0] + cm[2], "tonr": cm[1] + cm[3]}[metric]
+        own = {"tpr": cm[0], "fnr": cm[1], "fpr": cm[2], "tnr": cm[3], "topr": cm[0] + cm[2], "tonr": cm[1] + cm[3]}[metric]
         h.check(f"mixed int/float scores: {metric} at the extreme target is exactly the extreme value ({method})", h.eq(own, want))
 
 
